@@ -28,8 +28,62 @@ def make_kw(R, kw):
     return out
 
 
+def graph_signature(R, entry, all_columns):
+    """multiset of node signatures (type, name, match, regex, actions, ordered child labels) of the grammar graph the
+    given entry point uses — built now if this process has not built it yet"""
+    import collections
+    getattr(R.m, entry)("select 1", **({"all_columns": all_columns} if all_columns else {}))
+    pname = {"parse": "common_parser", "parse_mysql": "mysql_parser", "parse_sqlserver": "sqlserver_parser", "parse_bigquery": "bigquery_parser"}[entry]
+    root = R.m.lookup_parsers[pname][all_columns].element
+
+    def label(e):
+        cfg = getattr(e, "parser_config", None)
+        mt = getattr(cfg, "match", None) if cfg is not None else None
+        return "%s:%s" % (type(e).__name__, str(getattr(e, "parser_name", "") or (mt if isinstance(mt, str) else ""))[:24])
+
+    def node_sig(e):
+        cfg = e.parser_config
+        mt = getattr(cfg, "match", None)
+        rx = getattr(cfg, "regex", None)
+        if rx is None or not hasattr(rx, "pattern"):
+            rx = getattr(e, "regex", None)
+        pat = rx.pattern if rx is not None and hasattr(rx, "pattern") else ""
+        acts = []
+        for pa in getattr(e, "parse_action", None) or []:
+            fn = getattr(pa, "__wrapped__", pa)
+            acts.append(getattr(fn, "__name__", None) or getattr(getattr(pa, "action", None), "__name__", None) or type(pa).__name__)
+        kids = list(getattr(e, "exprs", None) or [])
+        x = getattr(e, "expr", None)
+        if x is not None and hasattr(x, "parser_config"):
+            kids.append(x)
+        labels = [label(k) for k in kids]
+        if type(e).__name__ == "Or":
+            labels.sort()       # longest match: infix_notation collects the alternatives from a set, their order is not fixed
+        return "%s|%s|%s|%s|%s|%s" % (type(e).__name__, str(getattr(e, "parser_name", "") or "")[:40], mt if isinstance(mt, str) else "",
+                                      pat[:80], ",".join(acts), ";".join(labels[:40]))
+
+    seen, stack, sigs = {}, [root], collections.Counter()
+    while stack:
+        e = stack.pop()
+        if e is None or id(e) in seen:
+            continue
+        seen[id(e)] = e
+        try:
+            sigs[node_sig(e)] += 1
+        except Exception:
+            sigs["?" + type(e).__name__] += 1
+        x = getattr(e, "expr", None)
+        if x is not None and hasattr(x, "parser_config"):
+            stack.append(x)
+        for y in getattr(e, "exprs", None) or []:
+            stack.append(y)
+    return dict(sigs)
+
+
 def do_call(R, c):
     fn = c["fn"]
+    if fn == "graphsig":
+        return {"ok": graph_signature(R, c["entry"], c.get("all_columns"))}
     if fn == "format":
         r = R.format_raw(C.uncanon(c["tree"]), **(c.get("kw") or {}))
         if r[0] == "ok":
